@@ -176,7 +176,15 @@ def run(ctx) -> None:
                     if isinstance(x, ast.Attribute) and isinstance(x.value, ast.Name) and x.value.id == "state":
                         foot.add(x.attr)
         ok = g is not None and {"values", "node_executions"} <= foot and "not in" in src(g.test)
-        why = "resume path: taken only if the outputs are in state.values and the node is not in state.node_executions; decided before the handler" if ok else f"resume condition does not consult both state.values and state.node_executions (footprint {sorted(foot)})"
+        # presence, not truthiness: the supplied answer is recognised by membership of every data output in
+        # state.values (0, False, "" and [] are answers)
+        if ok:
+            presence = [x for e in exprs for x in ast.walk(e) if isinstance(x, ast.Compare) and len(x.ops) == 1 and isinstance(x.ops[0], ast.In) and src(x.comparators[0]).endswith("state.values")]
+            in_all = any(isinstance(x, ast.Call) and dotted(x.func) == "all" and any(p_ in list(ast.walk(x)) for p_ in presence) for e in exprs for x in ast.walk(e))
+            if not (presence and in_all):
+                ok = False
+                why_presence = True
+        why = "resume path: taken only if the outputs are in state.values and the node is not in state.node_executions; decided before the handler" if ok else ("the supplied response is recognised by its truth value instead of by 'every data output in state.values': resuming with 0 / False / '' / [] pauses again instead of passing the interrupt" if locals().get("why_presence") else f"resume condition does not consult both state.values and state.node_executions (footprint {sorted(foot)})")
         # returned values come from state.values
         if ok:
             vals = []
